@@ -662,7 +662,7 @@ def roundtrip_check(ctx, c, outs):
     shape = tuple(c["shape"])
     f1 = c["fin"]
     cs = np.array(c["coords"], float).reshape(shape + (NIDX[f1],))
-    m = Miller(**{f1: cs, "phase": ph})
+    m = Miller(**{f1: common.relayout(cs, c["coords"]), "phase": ph})
     shape = shape or (1,)                      # a single vector is stored with shape (1,) (orix convention)
     cs = cs.reshape(shape + (NIDX[f1],))
     if tuple(m.shape) != shape:
